@@ -43,6 +43,11 @@ type P struct {
 
 func (p *P) Name() string { return "<" + p.name + ">" }
 
+const (
+	KS = "ks"
+	KN = 7
+)
+
 var tr []int
 
 func t(x int) int {
@@ -84,7 +89,7 @@ func (p *c05) build(c fw.Case, r *fw.Rec) pairBuild {
 	ff := func(x float64) string { return strconv.FormatFloat(x, 'g', -1, 64) }
 	tcount := 0
 	exprs := func() c05val {
-		switch rnd.Intn(30) {
+		switch rnd.Intn(31) {
 		case 0, 1:
 			return c05val{src: "a", val: strconv.Itoa(a), ty: "int"}
 		case 2:
@@ -128,6 +133,11 @@ func (p *c05) build(c fw.Case, r *fw.Rec) pairBuild {
 		case 23:
 			return c05val{src: "e2", val: "E#" + strings.Repeat("!", code), ty: "error"}
 		case 24:
+			if rnd.Bool() {
+				return c05val{src: "KS", val: "ks", ty: "string"} // untyped string constant
+			}
+			return c05val{src: "KN + 1", val: "8", ty: "int"} // untyped integer constant expression
+		case 30:
 			return c05val{src: "arr[1]", val: "20", ty: "int"}
 		case 25:
 			return c05val{src: `m["k"]`, val: "7", ty: "int", raw: true}
